@@ -39,6 +39,31 @@ func genC20Codec(t *rapid.T) C20CodecCase {
 	for i := 0; i < n; i++ {
 		c.Exs = append(c.Exs, genTree(t, 3, fmt.Sprintf("e%d", i)))
 	}
+	// numeric parameters that do not survive a narrower wire type: fractions
+	// that are not float32-representable, integers above 2^24 and 2^31
+	odd := []float64{0.1, 0.3, 2.7, 1e-7, 16777217, 3000000001.5}
+	for i, e := range c.Exs {
+		k := 0
+		e.Walk(func(x *h.Ex) {
+			k++
+			l := fmt.Sprintf("odd%d.%d", i, k)
+			switch {
+			case x.Bnd || x.Op == "BOUNDEDTOP":
+				if rapid.Bool().Draw(t, l) {
+					x.Lo += rapid.SampledFrom(odd[:4]).Draw(t, l+".lo")
+					x.Hi += rapid.SampledFrom(odd).Draw(t, l+".hi")
+				}
+			case x.Op == "CONST":
+				if rapid.IntRange(0, 2).Draw(t, l) == 0 {
+					x.Num += rapid.SampledFrom(odd).Draw(t, l+".num")
+				}
+			case x.Op == "SHIFT":
+				if rapid.Bool().Draw(t, l) {
+					x.Off -= int64(rapid.SampledFrom([]int{1, 500000000, 86400}).Draw(t, l+".off"))
+				}
+			}
+		})
+	}
 	m := rapid.IntRange(0, 6).Draw(t, "nupd")
 	for i := 0; i < m; i++ {
 		c.Upds = append(c.Upds, genUpd(t, fmt.Sprintf("u%d", i)))
